@@ -62,6 +62,7 @@ def run(F, R, tier, cfg):
     matcher_rules(F, R)
     first_match_rule(F, R)
     hop_predicate_roundtrip_rule(F, R)
+    paren_reset_rule(F, R)
 
 
 H = POL + "hop_pattern::HopPatternExpression::"
@@ -267,3 +268,38 @@ def hop_predicate_roundtrip_rule(F, R):
                     R.violation("RT-hop-predicate", HP_FROMSTR, "the parser can build a predicate with an interface part whose AS part is not necessarily present (%s): "
                                 "it prints as ISD#IF, which the parser itself rejects" % fmt(oa, 100), b.span_of(st[3]).loc)
     R.floor("RT-hop-predicate", n, 3, "HopPredicate constructions in FromStr")
+
+
+PARSE_EXPR = "sciparse::scion::path::policy::hop_pattern::parser::HopPatternParser::<'a>::parse_expr"
+
+
+def paren_reset_rule(F, R):
+    """PAREN-reset: "redundant parentheses do not change a pattern's meaning": in the Pratt parser a parenthesised group is
+    parsed with the lowest binding power, and operator right-hand sides with a power derived from the operator's constant;
+    no recursive parse_expr call may inherit the caller's own `left_binding_power` — that would let the context outside the
+    parentheses cut the group short."""
+    b = F.body(PARSE_EXPR)
+    if b is None:
+        R.anchor_missing(PARSE_EXPR)
+        return
+    R.fn(PARSE_EXPR)
+    rec = [c for c in b.calls if not c.indirect and (c.res or c.decl) == PARSE_EXPR and c.bb in b.live_blocks()]
+    n_zero = 0
+    for c in rec:
+        o = strip_sites(b.origin(c.args[1]))
+        tk = tokens(o)
+        inherits = any(t.startswith("param:") for t in tk)
+        named = any("BIND_POWER" in t for t in tk)
+        if PN.const_eval(o) == 0:
+            n_zero += 1
+        ok = not inherits and (named or PN.const_eval(o) is not None)
+        R.ob("PAREN-reset", "recursive parse_expr(%s) does not inherit the caller's binding power" % fmt(o, 60), ok, True,
+             {"rule": "PAREN-reset", "loc": c.span.loc, "binding_power": fmt(o, 100), "holds": ok})
+        if not ok:
+            R.violation("PAREN-reset", PARSE_EXPR + "/inherit", "a nested expression is parsed with the caller's own left_binding_power (%s): the context outside a "
+                        "parenthesised group ends the group early, so redundant parentheses change or destroy a pattern's meaning" % fmt(o, 80), c.span.loc)
+    ok0 = n_zero >= 1
+    R.ob("PAREN-reset", "a nested expression parsed with NO_BIND_POWER exists (the parenthesised group)", ok0, True)
+    if not ok0:
+        R.violation("PAREN-reset", PARSE_EXPR + "/no-reset", "no recursive call resets the binding power to NO_BIND_POWER: parentheses do not group", F.loc(PARSE_EXPR))
+    R.floor("PAREN-reset", len(rec), 2, "recursive parse_expr calls (group, operator right-hand side)")
